@@ -164,6 +164,7 @@ func newServerFilter(dataDir string, table []entry) (d *filtering.DNSFilter, err
 		DataDir: dataDir, Rewrites: rws, BlockingMode: filtering.BlockingModeDefault,
 		ApplyClientFiltering: func(string, netip.Addr, *filtering.Settings) {},
 		BlockedServices:      &filtering.BlockedServices{Schedule: schedule.EmptyWeekly()},
+		ConfigModified:       func() {},
 	}, nil)
 }
 
